@@ -136,7 +136,7 @@ class BooleanConstant(_Constant):
 
 _HASH_REGEX = {
     "MD5": (r"^[a-fA-F0-9]{32}\Z", "MD5"),
-    "MD6": (r"^[a-fA-F0-9]{32}|[a-fA-F0-9]{40}|[a-fA-F0-9]{56}|[a-fA-F0-9]{64}|[a-fA-F0-9]{96}|[a-fA-F0-9]{128}\Z", "MD6"),
+    "MD6": (r"^(?:[a-fA-F0-9]{32}|[a-fA-F0-9]{40}|[a-fA-F0-9]{56}|[a-fA-F0-9]{64}|[a-fA-F0-9]{96}|[a-fA-F0-9]{128})\Z", "MD6"),
     "RIPEMD160": (r"^[a-fA-F0-9]{40}\Z", "RIPEMD-160"),
     "SHA1": (r"^[a-fA-F0-9]{40}\Z", "SHA-1"),
     "SHA224": (r"^[a-fA-F0-9]{56}\Z", "SHA-224"),
